@@ -47,8 +47,8 @@ theorem prune_keeps_foreign (c : Cfg) (s : St) (x : Name × Nat) (hx : x ∈ s.d
     rw [List.mem_filter]
     refine ⟨hx, ?_⟩
     cases hname : x.1 with
-    | plain => simp
-    | foreign k => simp
+    | plain => simp [isTs]
+    | foreign k => simp [isTs]
     | ts n => exact absurd hname (hn n)
 
 /-- a file is created with the configured mode (0600 when unset) -/
